@@ -13,6 +13,13 @@ Driver for component `allow` (C18).  Per-case state: the configured session (all
                                            → 403 empty | 200 ok | 200 head | 200 render <marker> | noanswer
   allow ka <peer> <hexmethod:hextarget,…>  → answers of one keep-alive connection joined by `|`
   allow accepterr <errno>                  → ok | stopped
+requests in flight (overlapping scrapes; `stepC`), on the endpoint of the current session:
+  allow cnew <v0,v1,…>                     → ok          (series 0…n-1 with these values, nothing in flight)
+  allow cupd <k> <d>                       → ok          (series k += d)
+  allow carrive <id> <peer> <hex target>   → ok | noanswer   (the request reaches the handler)
+  allow cread <id> <k>                     → ok          (its rendering loads series k)
+  allow creadall <id>                      → ok          (its rendering loads every series it has not loaded yet)
+  allow crespond <id>                      → 403 empty | 200 ok | 200 render <v0,v1,…> | pending
 `<fam>` is `4` or `6`, `<addr>` the address as a decimal number, `<peer>` is `<fam>/<addr>/<port>` or `unix`.
 -/
 namespace MetricsVerif.Driver.Allowlist
@@ -90,9 +97,17 @@ def reqTok (s : String) : Option Req := do
 /-- the arm of the accept loops in the code (`src_listener_plumbing`) -/
 def arm : LoopAct := .continue
 
-abbrev DSt := Option Sess2
+/-- the text of a rendering in the `stepC` layer: the values of the series in order -/
+def renderVals (vs : List Nat) : List Char := ("render " ++ ",".intercalate (vs.map toString)).toList
 
-def handle (st : DSt) (args : List String) : Option (DSt × String) :=
+/-- per-case state: the sequential session and, once `cnew` was sent, the exporter with requests in flight -/
+structure DState where
+  sess : Sess2
+  conc : Option StC := none
+
+abbrev DSt := Option DState
+
+def handleSeq (st : Option Sess2) (args : List String) : Option (Option Sess2 × String) :=
   match args with
   | ["parse", e] => do
     let e ← entryTok e
@@ -163,5 +178,56 @@ def handle (st : DSt) (args : List String) : Option (DSt × String) :=
     | (s', []) => pure (some s', "noanswer")
     | (_, _) => none
   | _ => none
+
+/-- the ops on requests in flight; everything else goes to `handleSeq` -/
+def handle (st : DSt) (args : List String) : Option (DSt × String) :=
+  match args with
+  | ["cnew", l] => do
+    let d ← st
+    let vs ← listTok (fun t => t.toNat?) l
+    pure (some { d with conc := some ⟨vs.length, fun k => vs.getD k 0, []⟩ }, "ok")
+  | ["cupd", k, n] => do
+    let d ← st
+    let c ← d.conc
+    let k ← k.toNat?
+    let n ← n.toNat?
+    if k < c.n then pure (some { d with conc := some (stepC renderVals c (.update k n)).1 }, "ok") else none
+  | ["carrive", id, peer, t] => do
+    let d ← st
+    let c ← d.conc
+    let id ← id.toNat?
+    let peer ← peerTok peer
+    let t ← unhexChars t
+    -- ids are the harness's names: an id still in flight is a malformed op
+    if (findFlight id c.flights).isSome then none else
+    match (if d.sess.running then d.sess.ep.isAllowed peer else none) with
+    | some ok => pure (some { d with conc := some (stepC renderVals c (.arrive id ok (pathOf t))).1 }, "ok")
+    | none => pure (some d, "noanswer")
+  | ["cread", id, k] => do
+    let d ← st
+    let c ← d.conc
+    let id ← id.toNat?
+    let k ← k.toNat?
+    if k < c.n ∧ (findFlight id c.flights).isSome then
+      pure (some { d with conc := some (stepC renderVals c (.read id k)).1 }, "ok")
+    else none
+  | ["creadall", id] => do
+    let d ← st
+    let c ← d.conc
+    let id ← id.toNat?
+    if (findFlight id c.flights).isSome then
+      pure (some { d with conc := some (runStateC renderVals c ((List.range c.n).map (fun k => EvC.read id k))) }, "ok")
+    else none
+  | ["crespond", id] => do
+    let d ← st
+    let c ← d.conc
+    let id ← id.toNat?
+    if (findFlight id c.flights).isNone then none else
+    match stepC renderVals c (.respond id) with
+    | (c', some r) => pure (some { d with conc := some c' }, showResp r)
+    | (c', none) => pure (some { d with conc := some c' }, "pending")
+  | _ => do
+    let (s', ans) ← handleSeq (st.map (·.sess)) args
+    pure (s'.map (fun s => ({ sess := s, conc := st.bind (·.conc) } : DState)), ans)
 
 end MetricsVerif.Driver.Allowlist
